@@ -983,7 +983,8 @@ impl Program {
 
         // Stable iteration order makes placeholder resolution deterministic
         for instruction in &self.instructions {
-            let qubits = instruction.get_qubits();
+            let mut qubits = instruction.get_qubits();
+            qubits.extend(instruction.get_frame_update_qubits());
 
             for qubit in qubits {
                 match qubit {
